@@ -112,3 +112,41 @@ package node
 //@   ensures[trimmed]         ret0 == nil && __called("signAndInsertSelfEvent") ==> len(c.transactionPool) == 0 && len(c.internalTransactionPool) == 0
 //@   ensures[kept-on-failure] ret0 != nil ==> __eq(c.transactionPool, old(c.transactionPool)) && __eq(c.internalTransactionPool, old(c.internalTransactionPool))
 //@   call signAndInsertSelfEvent assert[pools-intact] __eq(c.transactionPool, old(c.transactionPool)) && __eq(c.internalTransactionPool, old(c.internalTransactionPool))
+
+// ------------------------------------------------------------------------------------------------
+// RPC gate and suspension (C17), handlers (C08)
+
+//@ import _state "github.com/mosaicnetworks/babble/src/node/state"
+
+//@ func (n *Node) processSyncRequest(rpc net.RPC, cmd *net.SyncRequest)
+//@   safety on
+//@   requires n != nil && n.core != nil && n.core.validator != nil && n.core.validator.Key != nil && n.core.hg != nil && n.conf != nil && cmd != nil
+//@   modifies hg.G_miss(n.core.hg.Store), anymap map[uint32]int
+
+//@ func (n *Node) processEagerSyncRequest(rpc net.RPC, cmd *net.EagerSyncRequest)
+//@   trusted handler body not verified here (it inserts events: covered by the contracts of ReadWireInfo / InsertEvent); only the gate in front of it is claimed
+//@   requires n != nil
+
+//@ func (n *Node) processFastForwardRequest(rpc net.RPC, cmd *net.FastForwardRequest)
+//@   trusted handler body not verified here; only the gate in front of it is claimed
+//@   requires n != nil
+
+//@ func (n *Node) processJoinRequest(rpc net.RPC, cmd *net.JoinRequest)
+//@   trusted handler body not verified here; only the gate in front of it is claimed
+//@   requires n != nil
+
+//@ func (n *Node) processRPC(rpc net.RPC)
+//@   requires n != nil && n.core != nil && n.core.validator != nil && n.core.validator.Key != nil && n.core.hg != nil && n.conf != nil
+//@   call processEagerSyncRequest   assert[gate-eager] __lastret("GetState", 0) == _state.Babbling
+//@   call processFastForwardRequest assert[gate-ff]    __lastret("GetState", 0) == _state.Babbling
+//@   call processJoinRequest        assert[gate-join]  __lastret("GetState", 0) == _state.Babbling
+//@   call processSyncRequest        assert[gate-sync]  __lastret("GetState", 0) == _state.Babbling || __lastret("GetState", 0) == _state.Suspended
+
+//@ func (n *Node) Suspend()
+//@   trusted state transition and routine shutdown (concurrency) not verified
+//@   requires n != nil
+
+//@ func (n *Node) checkSuspend()
+//@   requires n != nil && n.core != nil && n.core.hg != nil && n.conf != nil && n.core.validators != nil
+//@   ensures[too-many] len(old(n.core.hg.UndeterminedEvents)) - old(n.initialUndeterminedEvents) > old(n.conf.SuspendLimit) * len(old(n.core.validators.ByPubKey)) ==> __called("Suspend")
+//@   ensures[evicted]  old(n.core.hg.LastConsensusRound) != nil && old(n.core.removedRound) > 0 && old(n.core.removedRound) > old(n.core.acceptedRound) && old(*n.core.hg.LastConsensusRound) >= old(n.core.removedRound) ==> __called("Suspend")
